@@ -217,7 +217,30 @@ pub fn gen16(r: &mut Rng, n: usize, thorough: bool) -> Vec<String> {
     }
     // random longer strings over the alphabet, truncations and one-byte mutations of valid documents
     while out.len() < n.max(11_200) {
-        match r.below(4) {
+        match r.below(6) {
+            4 => {
+                // a well-formed document followed by bytes a lenient reader would drop (line ends, blanks, NUL, BOM):
+                // not well-formed any more
+                let mut doc = encode_value(&gen_value(r, 3));
+                let tails: [&[u8]; 9] = [b"\n", b"\r\n", b" ", b"\t", b"\0", b"\x0c", b"\n\n", b"\xef\xbb\xbf", b"\r"];
+                if r.chance(1, 4) {
+                    let mut d = r.pick(&tails).to_vec();
+                    d.extend_from_slice(&doc);
+                    doc = d;
+                } else {
+                    doc.extend_from_slice(*r.pick(&tails[..]));
+                }
+                out.push(format!("dec {}", hex(&doc)));
+            }
+            5 => {
+                // a well-formed document whose last (or only) value is a byte string ending in such bytes
+                let tails: [&[u8]; 7] = [b"\n", b"\r\n", b" ", b"a\n", b"\t\x0c", b"\0", b"x \r\n"];
+                let t = r.pick(&tails);
+                let mut doc = if r.coin() { encode_value(&gen_value(r, 2)) } else { vec![] };
+                doc.extend_from_slice(format!("{}:", t.len()).as_bytes());
+                doc.extend_from_slice(t);
+                out.push(format!("dec {}", hex(&doc)));
+            }
             0 => {
                 let len = 5 + r.below(8) as usize;
                 let s: Vec<u8> = (0..len).map(|_| *r.pick(&ALPHA)).collect();
